@@ -539,7 +539,7 @@ def run(tier: str, seed: int) -> Result:
     cfgs.append((False, "init", ("10.0.0.1",), 4 if q else 5, 1))
     cfgs.append((False, "init", ("dev.example.com",), 4 if q else 5, 1 if q else 2))
     cfgs.append((False, "init", ("10.0.0.1", "10.0.0.2"), 4 if q else 5, 0 if q else 1))
-    for s in ("opened", "hello_sent", "req_pending", "disc_pending", "pong_due"):
+    for s in ("opened", "hello_sent", "req_pending", "disc_pending", "pong_due", "disc_gave_up"):
         cfgs.append((False, s, ("10.0.0.1",), 3 if q else 4, 1 if q else 2))
     for s in ("opened", "hswait", "hello_sent", "req_pending"):
         cfgs.append((True, s, ("10.0.0.1",), 3 if q else 4, 1 if q else 2))
@@ -547,7 +547,7 @@ def run(tier: str, seed: int) -> Result:
     # an over-long label is of the same kind): still a classified error, still bounded
     cfgs.append((False, "init", ("10.0.0.1",), 3, 1, "weird-connect"))
     cfgs.append((False, "init", ("10.0.0.1", "10.0.0.2"), 3, 0 if q else 1, "weird-connect"))
-    budget = 110.0 if q else 1800.0
+    budget = 240.0 if q else 2400.0
     t_end = time.monotonic() + budget
     per_cfg = []
     from .. import world as _world
